@@ -115,9 +115,24 @@ theorem decodeArray_val (t : STy) (pieces : List Wire) (hne : pieces ≠ []) (x 
   | cons w r => simp [h]
 
 /-- the code's serialisation of a default is the spec's -/
-theorem encodeDefault_eq_spec (p : Param) (d : PVal) : encodeDefault p d = specEncode p d := by
-  unfold encodeDefault specEncode
-  cases p.loc <;> cases d <;> rfl
+theorem encodeDefault_eq_spec (p : Param) (d : PVal) (h : d ≠ .list [] ∨ encodeDefault p d = []) :
+    encodeDefault p d = specEncode p d := by
+  cases d with
+  | sc a => unfold encodeDefault specEncode; cases p.loc <;> rfl
+  | list as =>
+    cases as with
+    | cons a r => unfold encodeDefault specEncode; cases p.loc <;> rfl
+    | nil =>
+      rcases h with h | h
+      · exact absurd rfl h
+      · rw [h]; unfold specEncode; cases p.loc <;> rfl
+
+theorem specEncode_path (p : Param) (d : PVal) (h : p.loc = .path) : specEncode p d = [] := by
+  unfold specEncode; simp [h]
+
+theorem emptyArrayWritten_congr (skip : Bool) (p : Param) (st st' : Store) (h : st.get p.key = st'.get p.key) :
+    EmptyArrayWritten skip p st = EmptyArrayWritten skip p st' := by
+  unfold EmptyArrayWritten; rw [h]
 
 /-- the default the "Set default value" block applies, if it runs -/
 def applied (skip : Bool) (p : Param) (raw : Option (List Wire)) : Option PVal :=
